@@ -349,6 +349,9 @@ func PbDecodeNodeRequest(buf []byte) (NodeEdge, error) {
 
 // PbToNode converts pb node to node
 func PbToNode(pbNode *pb.Node) (NodeEdge, error) {
+	if pbNode == nil {
+		return NodeEdge{}, errors.New("no node in message")
+	}
 
 	points := make([]Point, len(pbNode.Points))
 	edgePoints := make([]Point, len(pbNode.EdgePoints))
